@@ -67,6 +67,11 @@ fn apply_step<const K: usize>(t: &mut AffTree<K>, st: &Value) -> (Value, Value, 
         }
         "apply_func" => { t.apply_func(&aff_from(&st["aff"])); (none(), none(), none()) }
         "reduce" => { t.red(); (none(), none(), none()) }
+        "remove_axes" => {
+            let mask = ndarray::Array1::from_iter(st["mask"].as_array().unwrap().iter().map(|v| v.as_bool().unwrap()));
+            t.remove_axes(&mask).expect("remove_axes");
+            (none(), none(), none())
+        }
         "replace_node" => {
             // target: the first non-root node in index order
             let root = t.tree.get_root_idx();
@@ -127,7 +132,7 @@ fn run_k<const K: usize>(mut t: AffTree<K>, sc: &Value, id: usize, out: Out) whe
         let r = guarded(|| apply_step(&mut t, st));
         let calls = verif::stop();
         let mut ev = json!({"fam": "afftree", "sc": id, "step": j, "first": j == 0 || !record_all, "k": K, "q": 1, "mode": "history", "op": op, "variant": "",
-                            "pre": pre.clone(), "aff": st.get("aff").cloned().unwrap_or(none()),
+                            "pre": pre.clone(), "aff": st.get("aff").cloned().unwrap_or(none()), "mask": st.get("mask").cloned().unwrap_or(json!([])),
                             "exp": if last { sc.get("exp").cloned().unwrap_or(none()) } else { none() },
                             "faulty": !plan.is_empty(), "lp": lp_json(&calls, q), "last": last});
         match r {
